@@ -324,8 +324,28 @@ def run_case(case: Dict[str, Any], ctx) -> None:
             else:
                 cls = O.Adam if opt_name == "Adam" else O.AdamW
                 okw["foreach"] = False
-            opt = cls(arg, lr=global_lr, **okw)
+            # the optimizer-level options in torch.optim's own POSITIONAL spelling - SGD(params, lr, momentum),
+            # Adam(params, lr, betas) - which the constructors accept through *args
+            pos_opts = case["seed"] % 4 == 0
+            if pos_opts and opt_name == "SGD":
+                okw.pop("momentum")
+                opt = cls(arg, global_lr, case["momentum"], **okw)
+                ctx.count("form:optimizer-options-positional")
+            elif pos_opts:
+                opt = cls(arg, global_lr, (0.85, 0.95), **okw)
+                ctx.count("form:optimizer-options-positional")
+            else:
+                opt = cls(arg, lr=global_lr, **okw)
             out = opt.param_groups
+            if pos_opts and not (case["untagged"] and not case["allow"]):
+                want_opt = ("momentum", case["momentum"]) if opt_name == "SGD" else ("betas", (0.85, 0.95))
+                ctx.count("options:optimizer-level-option-compared", len(out))
+                for gi, g_ in enumerate(out):
+                    src_has = container == "groups" and want_opt[0] in src_of(gi)
+                    if not src_has and g_.get(want_opt[0]) != want_opt[1]:
+                        ctx.violation(f"C11:optimizer-level-option-given-positionally-is-lost:{opt_name}:{want_opt[0]}",
+                                      f"{opt_name}(params, lr, {want_opt[1]!r}): group {gi} has {want_opt[0]}={g_.get(want_opt[0])!r}", container=container)
+                        break
         err = None
     except Exception as e:
         err = e
